@@ -64,7 +64,8 @@ func init() {
 
 func runC25(c *Ctx) {
 	requireStateless(c, "M1-no-state-between-requests", "(control/beaconing.Handler).HandleBeacon")
-	hT := "(control/beaconing.Handler)"
+	c25TopologyReload(c)
+	hT :="(control/beaconing.Handler)"
 	if fn := c.Fn(hT + ".HandleBeacon"); fn != nil {
 		e := NewE1(c, fn)
 		sinks := e.CallSites("invoke:control/beaconing.BeaconInserter.InsertBeacon")
